@@ -137,7 +137,8 @@ func (b *Buffer) Write(packet []byte) (int, error) { //nolint:cyclop
 	}
 
 	if (b.limitCount > 0 && b.count >= b.limitCount) ||
-		(b.limitSize > 0 && b.size()+2+len(packet) > b.limitSize) {
+		(b.limitSize > 0 && b.size()+2+len(packet) > b.limitSize) ||
+		((b.limitSize <= 0 || sizeHardLimit) && b.size()+2+len(packet) >= maxSize) {
 		b.mutex.Unlock()
 
 		return 0, ErrFull
